@@ -6,7 +6,8 @@
    fix 2159c02) for every heuristic tape; noforce_can_stall is the formal record of the repaired defect: without
    the fix a tape that always declines makes the loop run forever on a 3-variable network.
    The candidate pipeline's loops (greedy flips, simulation rounds) and the block expansion have explicit bounds too.
-   PARTIAL: the SCC strategy and the attractor-seed expansion are bounded by the back-edge budget and the watchdog only.
+   The attractor-seed expansion terminates within 2 * 3^n + 3 iterations (expand_aseeds_terminates).
+   PARTIAL: the SCC strategy is bounded by the back-edge budget and the watchdog only.
 
    This file contains only restatements closed by `exact` (statements produced by Coq's own
    `Check` of the library lemma) plus non-vacuity Examples, each followed by Print Assumptions. *)
@@ -14,7 +15,8 @@ From Coq Require Import List Bool Arith NArith Lia Relations Permutation.
 Import ListNotations.
 From BB Require Import BN Brute SpaceFacts TrapFacts PercolateFacts AttractorFacts Diagram Invariants Checks Filter
   Strict PetriNet Control Meta FilterFacts PetriNetFacts TrappistFacts DiagramStruct DiagramSem1 DiagramCache
-  DiagramDepth DiagramComplete Termination ControlFacts MetaFacts Candidates StrictFacts MinExpandFacts CandidatesFacts SymbolicTest SymbolicTestFacts Signed ReductionFacts ControlFacts2 Main Blocks BlocksFacts ObsFacts OwnerFacts CandidatesTerm.
+  DiagramDepth DiagramComplete Termination ControlFacts MetaFacts Candidates StrictFacts MinExpandFacts CandidatesFacts SymbolicTest SymbolicTestFacts Signed ReductionFacts ControlFacts2 Main Blocks BlocksFacts ObsFacts OwnerFacts CandidatesTerm
+  PartialOwner BlockMath BlockComplete ASeeds ASeedsFacts LogChecks SkipRule SkipRuleFacts Names NamesFacts Perm PermFacts.
 
 Theorem C13_size_bound : forall (N : net) (d : sd), SWF N d -> size d <= max_nodes N.
 Proof. exact size_bound. Qed.
@@ -71,6 +73,13 @@ Proof. exact noforce_can_stall. Qed.
 Theorem C13_fixed_loop_answers_on_that_instance : symbolic_test 5 stall_net stall_space stall_pivot stall_avoid [] [] = TSome [[false; false; false]; [true; false; false]; [true; true; false]; [false; true; false]].
 Proof. exact stall_fixed_answer. Qed.
 
+Theorem C13_aseeds_expansion_terminates : forall (fuel : nat) (N : net) (cfg : config) (d : sd) (sz : option nat) (min_tape : list space) (tape : list (list nat)), SWF N d -> 2 * max_nodes N + 3 <= fuel -> snd (expand_aseeds fuel N cfg d sz min_tape tape) <> RFuel.
+Proof. exact expand_aseeds_terminates. Qed.
+
+(* the rename loop of sanitize_network_names needs at most one more round than there are variables *)
+Theorem C13_sanitize_clash_loop_terminates : forall (cur : list name) (nm : name), exists k : nat, fresh (S (length cur)) cur nm = Some (repeat 95%N k ++ nm) /\ k <= length cur /\ ~ In (repeat 95%N k ++ nm) cur /\ (forall j : nat, j < k -> In (repeat 95%N j ++ nm) cur).
+Proof. exact fresh_total. Qed.
+
 Print Assumptions C13_size_bound.
 Print Assumptions C13_bfs_terminates.
 Print Assumptions C13_dfs_terminates.
@@ -88,3 +97,5 @@ Print Assumptions C13_candidate_pipeline_terminates.
 Print Assumptions C13_symbolic_test_terminates.
 Print Assumptions C13_unfixed_loop_can_stall.
 Print Assumptions C13_fixed_loop_answers_on_that_instance.
+Print Assumptions C13_aseeds_expansion_terminates.
+Print Assumptions C13_sanitize_clash_loop_terminates.
